@@ -182,6 +182,8 @@ def check_outcome(auth, row, res):
         if getattr(val, 'yggdrasil_error', None) != 'ForbiddenOperationException' or \
                 getattr(val, 'yggdrasil_message', None) != 'Invalid credentials.':
             return 'error fields %r / %r' % (getattr(val, 'yggdrasil_error', None), getattr(val, 'yggdrasil_message', None))
+        if getattr(val, 'yggdrasil_cause', None) != 'why':          # "the service's error fields": error, errorMessage and cause
+            return 'error field cause is %r, the service sent %r' % (getattr(val, 'yggdrasil_cause', None), 'why')
     elif 'alformed' not in str(val):
         return 'error message %r does not say the body was malformed' % str(val)
     return None
